@@ -317,7 +317,7 @@ def run(ctx):
     # ------------------------------------------------------------------------ R16.3 sinks survive errors
     sinks = []
     for b in F.all_bodies("metrique_writer"):
-        if not (b.path.startswith("metrique_writer::sink::background::") or b.path.startswith("metrique_writer::sink::immediate_flush::")
+        if not (b.path.startswith("metrique_writer::sink::") and not b.path.startswith("metrique_writer::sink::metrics::")
                 or b.path.startswith("<metrique_writer::sink::")):
             continue
         if "::tests::" in b.path:
